@@ -638,7 +638,7 @@ func c04DuringCleaner(c *core.Ctx) {
 		return func(size int, offsets []int) int {
 			evals.Add(1)
 			if armed.CompareAndSwap(true, false) {
-				gate.Enter(3000) // one evaluation is held open (falls through after the bound)
+				gate.Enter(1000) // one evaluation is held open (falls through after the bound)
 			}
 			return inner(size, append([]int(nil), offsets...))
 		}
